@@ -451,6 +451,8 @@ class Exec:
                 st.qh.append(q)
             else:
                 self.assume(q)
+        if getattr(k, 'ghost_body', None) is not None:
+            k.ghost_body(self, self.args, self.fn.lineno)       # ghost statement at the entry of the function under proof
         self.try_stack = []
         self.loop_frames = []
         self.loop_done = {}
